@@ -200,7 +200,7 @@ def make_mutation(mu, names, cur_sig=None, palette=None):
     if k == 'DelM':
         return DeleteModel(names.model(mu['m']))
     if k == 'Meta':
-        if mu['prop'] == 'unique_together':
+        if mu['prop'] in ('unique_together', 'index_together'):
             val = [tuple(names.field(x) for x in t) for t in mu['val']]
         elif mu['prop'] == 'indexes':
             val = [concrete_index(ix, names) for ix in mu['ival']]
@@ -340,7 +340,7 @@ def project_mutation(m, names):
         rec.update(k='DelM', m=rm(m.model_name))
     elif isinstance(m, ChangeMeta):
         rec.update(k='Meta', m=rm(m.model_name), prop=m.prop_name)
-        if m.prop_name == 'unique_together':
+        if m.prop_name in ('unique_together', 'index_together'):
             rec['val'] = [[rf(x) for x in t] for t in m.new_value]
         elif m.prop_name == 'constraints':
             rec['ival'] = [_abstract_constraint_dict(c, names) for c in (m.new_value or [])]
@@ -399,6 +399,9 @@ def project_sig(project_sig, names):
         }
         if getattr(ms, 'db_table_comment', None):
             out[names.rmodels.get(ms.model_name, ms.model_name)]['comment'] = ms.db_table_comment
+        if ms.index_together:
+            out[names.rmodels.get(ms.model_name, ms.model_name)]['it'] = [
+                [names.rfields.get(x, x) for x in t] for t in ms.index_together]
     return out
 
 
@@ -442,6 +445,8 @@ def sig_equal_abstract(a, b):
                 sorted(repr(sorted(c.items())) for c in y['cons']):
             return False
         if x.get('comment') != y.get('comment'):
+            return False
+        if sorted(map(tuple, x.get('it') or [])) != sorted(map(tuple, y.get('it') or [])):
             return False
     return True
 
